@@ -268,6 +268,8 @@ def returns_of(f, adt_suffix="error::Error"):
     """[(bb, variant name, span idx)] for every `_0 = Adt::Variant` in f."""
     out = []
     for i, b in enumerate(f.blocks):
+        if not f.live(i):
+            continue
         for st in b["s"]:
             if st[0] == "=" and st[1] == [0, []] and st[2][0] == "agg" and st[2][1][0] == "adt" and st[2][1][1].endswith(adt_suffix):
                 out.append((i, st[2][1][3], st[3]))
@@ -448,6 +450,8 @@ def rule_entry_validation(col, facts):
                       "back-end reached without assert!(check_buffer(..))", wf.loc(wf.blocks[bb]["ts"]))
     col.floor(R, "write_float back-ends", m, 3)
     for i, b in enumerate(wf.blocks):
+        if not wf.live(i):
+            continue
         for st in b["s"]:
             if st[0] == "=" and st[1][1] and any(isinstance(p, (list, tuple)) and p[0] == "idx" for p in st[1][1]):
                 conds = path_conditions(wf, i)
